@@ -7,7 +7,9 @@ for id in $IDS; do
   PROPS=$(python3 -c "
 import json;m=json.load(open('seeded/$id/meta.json'))
 print(' '.join(k for k,v in m['checks_run'].items() if v['detected']))")
-  out=$(tools/mutant.sh seeded/$id/patch.diff $PROPS 2>&1 | grep "exit=" | tr '\n' ' ')
-  echo "$id [$PROPS] $out"
+  raw=$(tools/mutant.sh seeded/$id/patch.diff $PROPS 2>&1)
+  out=$(echo "$raw" | grep "exit=" | tr '\n' ' ')
+  nv=$(echo "$raw" | grep -c "^VIOLATION property=")
+  echo "$id [$PROPS] $out violations=$nv"
 done
 echo RESEED-DONE
